@@ -224,6 +224,8 @@ func (w *World) l1(open int64) uint64 {
 	switch {
 	case open < VoteBlock:
 		return l1Early
+	case s.L1Past:
+		return uint64(s.Activation) + 1
 	case len(w.Eons) > 0 && w.Chain.Committed >= w.EonStart[w.Eons[0]]+3*s.L+3:
 		return uint64(s.Activation) + 1 // the new set's activation block has passed
 	default:
